@@ -857,6 +857,14 @@ fn replay_input(cx: &mut Ctx, rep: &mut Report, r: &mut Rng, v: &Value) {
             let w = chars(v["word"].as_str().unwrap_or(""));
             alnum_case(cx, rep, &w, "corpus");
         }
+        "sent_items" => {
+            let its = items_of_json(&v["items"]);
+            sentence_items_case(cx, rep, r, &its, "corpus", true);
+        }
+        "sent_text" => {
+            let its = items_of_text(&chars(v["text"].as_str().unwrap_or("")));
+            sentence_items_case(cx, rep, r, &its, "corpus", true);
+        }
         "listed" => {
             let w = chars(v["word"].as_str().unwrap_or(""));
             if cx.listed.contains_key(&s_of(&w)) {
@@ -1196,6 +1204,245 @@ fn random_alnum(r: &mut Rng) -> Vec<char> {
     }
     v
 }
+
+// ---------- phase 5: sentences of the class of Model/C06Sentence.v (theorems C06_sentence_*) ----------
+#[derive(Clone, Debug)]
+enum SItem {
+    W(Vec<char>),
+    S(usize),
+    P(char),
+}
+/// sep_punct of C06Sentence.v on the implementation: a character Punctuation::from_char knows, except . : @ [ the
+/// apostrophes and the quote characters
+fn sep_punct_rs(c: char) -> bool {
+    if matches!(c, '.' | ':' | '@' | '[' | '"' | '\u{201C}' | '\u{201D}') {
+        return false;
+    }
+    !matches!(Punctuation::from_char(c), Some(Punctuation::Period) | Some(Punctuation::Apostrophe) | Some(Punctuation::Quote(_)) | None)
+}
+/// sent_ok on the implementation's predicates
+fn items_ok_rs(its: &[SItem]) -> bool {
+    for (i, it) in its.iter().enumerate() {
+        let ok = match it {
+            SItem::W(w) => is_body_rs(w),
+            SItem::S(n) => *n > 0,
+            SItem::P(c) => sep_punct_rs(*c),
+        };
+        if !ok {
+            return false;
+        }
+        if let Some(nx) = its.get(i + 1) {
+            if matches!((it, nx), (SItem::W(_), SItem::W(_)) | (SItem::S(_), SItem::S(_))) {
+                return false;
+            }
+        }
+    }
+    true
+}
+fn items_line(its: &[SItem]) -> String {
+    its.iter()
+        .map(|it| match it {
+            SItem::W(w) => format!("w {}", cps(w)).trim().to_string(),
+            SItem::S(n) => format!("s {n}"),
+            SItem::P(c) => format!("p {}", *c as u32),
+        })
+        .collect::<Vec<_>>()
+        .join(";")
+}
+fn items_json(its: &[SItem]) -> Value {
+    Value::Array(
+        its.iter()
+            .map(|it| match it {
+                SItem::W(w) => json!(["w", s_of(w)]),
+                SItem::S(n) => json!(["s", n]),
+                SItem::P(c) => json!(["p", c.to_string()]),
+            })
+            .collect(),
+    )
+}
+fn items_of_json(v: &Value) -> Vec<SItem> {
+    v.as_array()
+        .cloned()
+        .unwrap_or_default()
+        .iter()
+        .filter_map(|it| match it[0].as_str().unwrap_or("") {
+            "w" => Some(SItem::W(chars(it[1].as_str().unwrap_or("")))),
+            "s" => Some(SItem::S(it[1].as_u64().unwrap_or(0) as usize)),
+            "p" => it[1].as_str().and_then(|x| x.chars().next()).map(SItem::P),
+            _ => None,
+        })
+        .collect()
+}
+/// a text cut into maximal runs of (lingual | ASCII digit), runs of blanks, and single other characters
+fn items_of_text(t: &[char]) -> Vec<SItem> {
+    let mut out = vec![];
+    let mut i = 0;
+    while i < t.len() {
+        let wc = |c: char| observed_lingual(c) || c.is_ascii_digit();
+        if wc(t[i]) {
+            let j = (i..t.len()).find(|k| !wc(t[*k])).unwrap_or(t.len());
+            out.push(SItem::W(t[i..j].to_vec()));
+            i = j;
+        } else if t[i] == ' ' {
+            let j = (i..t.len()).find(|k| t[*k] != ' ').unwrap_or(t.len());
+            out.push(SItem::S(j - i));
+            i = j;
+        } else {
+            out.push(SItem::P(t[i]));
+            i += 1;
+        }
+    }
+    out
+}
+/// sent_text, sent_tokens' spans, sent_words
+fn items_text(its: &[SItem]) -> (Vec<char>, Vec<(usize, usize)>, Vec<(usize, usize)>) {
+    let (mut text, mut all, mut ws) = (vec![], vec![], vec![]);
+    for it in its {
+        let a = text.len();
+        match it {
+            SItem::W(w) => text.extend(w),
+            SItem::S(n) => text.extend(std::iter::repeat(' ').take(*n)),
+            SItem::P(c) => text.push(*c),
+        }
+        all.push((a, text.len()));
+        if matches!(it, SItem::W(_)) {
+            ws.push((a, text.len()));
+        }
+    }
+    (text, all, ws)
+}
+/// S case (the extracted sent_ok / sent_text / sent_words against the harness's classification and the implementation's
+/// Word tokens), the theorem C06_sentence_tokens on the implementation (one token per item, the Word tokens are the word
+/// items), and C06 itself on the sentence: an unlisted word item is reported with exactly its span, a listed one is not
+fn sentence_items_case(cx: &mut Ctx, rep: &mut Report, r: &mut Rng, its: &[SItem], what: &str, lint: bool) -> bool {
+    rep.eval();
+    let ok = items_ok_rs(its);
+    let (text, spans, wspans) = items_text(its);
+    let line = format!("S {}", items_line(its));
+    rep.count(&format!("sentence_items:{}:{}", what, if ok { "in the class" } else { "outside the class" }));
+    if !ok {
+        rep.case(&line, "N");
+        return true;
+    }
+    let inp = json!({"kind":"sent_items","items":items_json(its)});
+    let s = s_of(&text);
+    let dict = cx.dict.clone();
+    let toks = guarded(|| {
+        let doc = Document::new_plain_english(&s, &dict);
+        doc.get_tokens().iter().map(|t| (t.span.start, t.span.end, matches!(t.kind, TokenKind::Word(_)))).collect::<Vec<_>>()
+    });
+    let toks = match toks {
+        Ok(t) => t,
+        Err(m) => {
+            rep.case(&line, "P");
+            rep.fail("panic", format!("Document::new_plain_english panicked on a sentence of the class: {m}"), inp);
+            return false;
+        }
+    };
+    let iw: Vec<(usize, usize)> = toks.iter().filter(|t| t.2).map(|t| (t.0, t.1)).collect();
+    rep.case(&line, &format!("{} | {}", cps(&text), if iw.is_empty() { "-".to_string() } else { spans_str(&iw) }));
+    rep.count(&format!("sentence_items:items:{}", match its.len() { 0..=2 => "1-2", 3..=6 => "3-6", 7..=12 => "7-12", _ => "13+" }));
+    let all: Vec<(usize, usize)> = toks.iter().map(|t| (t.0, t.1)).collect();
+    if all != spans || iw != wspans {
+        rep.fail(
+            "sentence_tokens_differ",
+            format!("{:?} is a sentence of the class (words = letter + letters/digits, blanks, separator punctuation): one token per item {:?} with Word tokens {:?} expected, the implementation yields tokens {:?} with Word tokens {:?}", s, spans, wspans, all, iw),
+            inp,
+        );
+        return false;
+    }
+    if lint && !wspans.is_empty() {
+        let di = r.below(4);
+        let d = DIALECTS[di];
+        let words: Vec<(usize, usize, u8)> = its
+            .iter()
+            .filter_map(|it| if let SItem::W(w) = it { Some(w) } else { None })
+            .zip(wspans.iter())
+            .map(|(w, (a, b))| {
+                let ws = s_of(w);
+                let lw: Vec<char> = w.iter().flat_map(|c| c.to_lowercase()).collect();
+                let exp = if !cx.keys.contains(&key_of(w)) {
+                    0
+                } else if cx.compat(&ws, d) == Some(true) {
+                    1
+                } else if cx.compat(&s_of(&lw), d) == Some(true) && (cap1(&lw) == *w || upper(&lw) == *w) {
+                    1
+                } else {
+                    2
+                };
+                (*a, b - a, exp)
+            })
+            .collect();
+        let mk = |_d: Dialect| -> Option<Placed> {
+            Some(Placed { text: s.clone(), words: words.clone(), entry: String::new(), form: "word item of a sentence of the class", focus: 0 })
+        };
+        do_placed(cx, rep, r, &mk, &[di], [true; 4]);
+    }
+    true
+}
+/// a word item: listed entries of the class, their case forms, edits of them (mostly unlisted), random letter/digit bodies
+fn random_word_item(cx: &Ctx, r: &mut Rng) -> Vec<char> {
+    let n = cx.words.len();
+    for _ in 0..20 {
+        let base = cx.words[r.below(n)].clone();
+        if !is_body_rs(&base) {
+            continue;
+        }
+        return match r.below(8) {
+            0 => cap1(&base),
+            1 => upper(&base),
+            2 | 3 => {
+                let m = mutate(r, &base);
+                if is_body_rs(&m) { m } else { base }
+            }
+            _ => base,
+        };
+    }
+    random_body(r)
+}
+fn random_items(cx: &Ctx, r: &mut Rng) -> Vec<SItem> {
+    const SEPS: &[char] = &[',', ';', '!', '?', '(', ')', '-', '-', '/', '#', '&', '%', '*', '+', '_', '{', '}', ']', '<', '>', '=', '~', '^', '|', '\\', '\u{2013}', '\u{2014}', '\u{2026}', '\u{3001}', '\u{FF0C}', '$', '\u{20AC}', '\u{A3}'];
+    let mut its = vec![];
+    if r.chance(1, 5) {
+        its.push(SItem::P(*r.pick(SEPS)));
+    }
+    let k = 1 + r.below(7);
+    for i in 0..k {
+        its.push(SItem::W(if r.chance(1, 6) { random_body(r) } else { random_word_item(cx, r) }));
+        if i + 1 == k && r.chance(1, 2) {
+            break;
+        }
+        // one to three separators, never two blank runs in a row
+        let m = 1 + r.below(3);
+        let mut last_space = false;
+        for j in 0..m {
+            if !last_space && (r.chance(2, 3) || (j == 0 && m == 1 && r.chance(1, 2))) {
+                its.push(SItem::S(1 + r.below(3)));
+                last_space = true;
+            } else {
+                its.push(SItem::P(*r.pick(SEPS)));
+                last_space = false;
+            }
+        }
+    }
+    if r.chance(1, 10) {
+        // near misses: outside the class — the model must classify them like the harness
+        let at = r.below(its.len() + 1);
+        let bad = match r.below(8) {
+            0 => SItem::P('.'),
+            1 => SItem::P('\''),
+            2 => SItem::P(':'),
+            3 => SItem::P('"'),
+            4 => SItem::S(0),
+            5 => SItem::W(vec![]),
+            6 => SItem::W(vec!['7', 'a']),
+            _ => SItem::P('['),
+        };
+        its.insert(at, bad);
+    }
+    its
+}
+
 fn fnv1a64(words: &[Vec<char>]) -> u64 {
     let mut h: u64 = 0xCBF29CE484222325;
     for w in words {
@@ -1610,6 +1857,21 @@ fn main() {
         }
         let w = random_alnum(&mut r);
         alnum_case(&mut cx, &mut rep, &w, "generated");
+    }
+    // ----- sentences of the class of C06Sentence.v: generated items, and every multi-token entry cut into items -----
+    for i in 0..args.scale(800, 30_000) {
+        if i % 64 == 0 && enough(&mut rep) {
+            break;
+        }
+        let its = random_items(&cx, &mut r);
+        sentence_items_case(&mut cx, &mut rep, &mut r, &its, "generated", true);
+    }
+    {
+        let multi: Vec<String> = cx.multi_committed.iter().cloned().collect();
+        for e in multi {
+            let its = items_of_text(&chars(&e));
+            sentence_items_case(&mut cx, &mut rep, &mut r, &its, "multi-token entry", false);
+        }
     }
     rep.extra.insert("seconds:unlisted".into(), json!((t_sec.elapsed().as_secs_f64() * 10.0).round() / 10.0));
     t_sec = std::time::Instant::now();
